@@ -62,7 +62,14 @@ def run(ctx, chk):
         chk.floor('C12.O1', 'paths through the chrony query', n_q, 2)
         # CFG form: the read's block dominates the query's block
         reads = [bb for bb, t, fn in common.user_calls(b) if fn and 'clock_gettime' in mir.callee_name(fn)]
-        queries = [bb for bb, t, fn in common.user_calls(b) if fn and is_chrony_query(fn['path'])]
+        queries = []
+        for bb, t, fn in common.user_calls(b):
+            if not fn:
+                continue
+            nm = mir.callee_name(fn)
+            nb = fb.body(nm)
+            if is_chrony_query(fn['path']) or (nb is not None and common.reaches_call(fb, nb, is_chrony_query)):
+                queries.append(bb)
         chk.analysed['call_sites'] += len(reads) + len(queries)
         for q in queries:
             dom = [r for r in reads if b.dominates(r, q) and r != q]
